@@ -698,4 +698,55 @@ theorem reach_execs (cs : List Call) : ∀ (a : Api), AInv a → KOk a →
   | nil => intro a hi hk; exact ⟨hi, hk⟩
   | cons c cs ih => intro a hi hk; exact ih _ (ainv_exec a c hi) (kok_exec a c hi hk)
 
+theorem keyOf_eq_keyOfH (s : State) (h : Nat) : keyOf s h = keyOfH s h := by
+  unfold keyOf keyOfH; cases s.hs h <;> rfl
+
+theorem snapshot_keys_order (s : State) (hids hs : List Nat) (hi : Inv s) (h : (step s (.snapshot hids)).2 = .list hs) :
+    hs.map (keyOfH (step s (.snapshot hids)).1) = s.order := by
+  simp only [step] at h ⊢
+  split at h
+  · rename_i hc
+    have hc' := hc
+    simp only [Bool.and_eq_true, decide_eq_true_eq] at hc
+    have hf := freshL_of s hids hc.1
+    simp only [hc', ↓reduceIte]
+    unfold snapshot at h ⊢
+    simp only [hi.notWedged, Bool.false_eq_true, ↓reduceIte] at h ⊢
+    have hex := snapLoop_exact s.order s hids [] (fun k hk => (hi.keys k).1 hk) hi.nodup hf.2 hc.2
+    simp only [List.length_nil, List.take_zero, List.reverse_nil, List.drop_zero, true_and] at hex
+    have e : (snapLoop s s.order hids []).2 = hs := by simpa using h
+    rw [e] at hex
+    exact hex.1
+  · cases h
+
+/-- what `lock_all_entries` creates: one item per key of the map, in iteration order -/
+theorem lockAll_handles (a : Api) (sid h0 : Nat) (pairs : List (Nat × Nat)) (hi : Inv a.s)
+    (h : (a.exec (.lockAll sid h0)).2.res = .handles pairs) :
+    pairs.map Prod.snd = a.s.order ∧ itemsAt (a.exec (.lockAll sid h0)).1 sid = some (pairs.map Prod.fst).reverse := by
+  simp only [Api.exec] at h ⊢
+  split at h
+  · cases h
+  · rename_i hno
+    split at h
+    · rename_i hs heq
+      simp only [] at h
+      have hp : pairs = hs.map fun x => (x, keyOf (step a.s (.snapshot (List.range' h0 supplyLen))).1 x) := by
+        cases h; rfl
+      have hord := snapshot_keys_order a.s _ hs hi heq
+      have hno' : (List.lookup sid a.streams).isSome = false := by
+        cases hq : (List.lookup sid a.streams).isSome with
+        | false => rfl
+        | true => exact absurd hq hno
+      simp only [hno', Bool.false_eq_true, ↓reduceIte]
+      refine ⟨?_, ?_⟩
+      · rw [hp, List.map_map, ← hord]
+        apply List.map_congr_left
+        intro x _
+        simp [keyOf_eq_keyOfH]
+      · unfold itemsAt
+        simp only [List.lookup_cons, beq_self_eq_true, Option.map_some]
+        rw [hp, List.map_map]
+        simp [Function.comp_def]
+    · cases h
+
 end Lockable
